@@ -31,6 +31,9 @@ type c04Input struct {
 	// SameMsg: every record of every container carries the same message (records that coincide in timestamp and
 	// text are still distinct records)
 	SameMsg bool `json:"same_msg,omitempty"`
+	// IDLabel: container 0 carries the Docker labels container-id = id1 and container.name = n1 (a Docker label may be named
+	// like a built-in one; which log is read is decided by the container, not by its labels)
+	IDLabel bool `json:"id_label,omitempty"`
 }
 
 func c04Rec(in c04Input, i, j, ts int) (msg string, ns int64) {
@@ -61,6 +64,9 @@ func c04Containers(in c04Input) []fakedocker.Container {
 			Image: "img",
 			State: "running",
 			Log:   fakedocker.Encode(recs),
+		}
+		if in.IDLabel && i == 0 && len(in.Logs) > 1 {
+			ctr.Labels = map[string]string{"container-id": "id1", "container.name": "n1"}
 		}
 		if in.TwoNames {
 			ctr.Names = []string{fmt.Sprintf("/n%d", i), fmt.Sprintf("/other/alias%d", i)}
@@ -302,6 +308,7 @@ func c04Run(r *vkit.Run) {
 		emit(c04Input{Logs: logs, Mode: "bound", Bound: 1, Empty: true})
 		emit(c04Input{Logs: logs, Mode: "bound", Bound: 1, TwoNames: true})
 		emit(c04Input{Logs: logs, Mode: "bound", Bound: 1, SameMsg: true})
+		emit(c04Input{Logs: logs, Mode: "bound", Bound: 1, IDLabel: true})
 		for pre := 1; pre <= 3; pre++ {
 			emit(c04Input{Logs: logs, Mode: "bound", Bound: 1, Pre: pre})
 		}
